@@ -95,7 +95,7 @@ def run_init(text):
 
 
 # --- alphabets
-UN = [None, 'dcl', 'X', 'nb', 'adj']
+UN = [None, 'dcl', 'X', 'nb', 'adj', 'conj']
 TE = [(('mod', 'nm'), ('form', 'base'), ('fin', 't')), (('mod', 'X1'), ('form', 'X2'), ('fin', 'f')), (('case', 'ga'), ('mod', 'nm'), ('fin', 'f'))]
 BASES = ['S', 'NP', 'N', 'PP', 'x1', 'conj', ',', '.', 'LRB']
 PUNCT = list(catmod.punctuations)
